@@ -169,6 +169,25 @@ func c08SortedUnique(xs []float64) []F64 {
 	return r
 }
 
+// the floats around the switch-over of BetaInc(., a, b), x = fl((a+1)/(a+b+2)) with 4 neighbours on each
+// side, and around the mirrored switch-over of the reflected call BetaInc(1-x, b, a), 1-x = fl((b+1)/(a+b+2)):
+// where the two evaluation branches (and a recursive reformulation of them) meet
+func c08Switch(a, b float64) []float64 {
+	var xs []float64
+	around := func(c float64) {
+		lo, hi := c, c
+		xs = append(xs, c)
+		for i := 0; i < 4; i++ {
+			lo, hi = math.Nextafter(lo, 0), math.Nextafter(hi, 1)
+			xs = append(xs, lo, hi)
+		}
+	}
+	thr := (a + 1) / (a + b + 2)
+	around(thr)
+	around(1 - (b+1)/(a+b+2))
+	return xs
+}
+
 // x grid for BetaInc(., a, b): dyadic grid, points near 0 and 1, the mean and the
 // switch-over x = (a+1)/(a+b+2) with its float neighbours; all inside [0,1].
 func c08BetaGrid(rng *rand.Rand, a, b float64, den float64, extra bool) []float64 {
@@ -181,7 +200,8 @@ func c08BetaGrid(rng *rand.Rand, a, b float64, den float64, extra bool) []float6
 	fine := 4096.0
 	xs = append(xs, math.Floor(thr*fine)/fine, math.Ceil(thr*fine)/fine, math.Floor(mean*fine)/fine, math.Ceil(mean*fine)/fine)
 	if extra {
-		xs = append(xs, thr, math.Nextafter(thr, 0), math.Nextafter(thr, 1), mean)
+		xs = append(xs, mean)
+		xs = append(xs, c08Switch(a, b)...)
 		for _, e := range []float64{10, 20, 30, 40, 52} {
 			xs = append(xs, math.Ldexp(1, int(-e)), 1-math.Ldexp(1, int(-e)))
 		}
@@ -289,6 +309,38 @@ func c08Gen(tier string, rng *rand.Rand, emit func(interface{})) {
 		}
 		emit(c)
 	}
+	// (iv) non-dyadic parameters (decimal fractions, thirds, sevenths): the computed switch-over values are not
+	//      exact there; only the floats around the two switch-overs and a few interior points
+	nDec := 250
+	if thorough {
+		nDec = 6000
+	}
+	decParam := func() float64 {
+		switch rng.Intn(4) {
+		case 0:
+			return float64(1+rng.Intn(60)) / 10
+		case 1:
+			return float64(1+rng.Intn(3000)) / 10
+		case 2:
+			return float64(1+rng.Intn(90)) / 3
+		default:
+			return float64(1+rng.Intn(200)) / 7
+		}
+	}
+	for it := 0; it < nDec; it++ {
+		a, b := decParam(), decParam()
+		if it == 0 {
+			a, b = 0.1, 2.2
+		}
+		xs := append(c08Switch(a, b), 0, 0.25, 0.5, 0.75, 1)
+		var in []float64
+		for _, x := range xs {
+			if x >= 0 && x <= 1 {
+				in = append(in, x)
+			}
+		}
+		emit(c08Case{Op: 3, A: F64(a), B: F64(b), Xs: c08SortedUnique(in)})
+	}
 	// corners of the parameter range
 	for _, a := range []float64{0.05, 300} {
 		for _, b := range []float64{0.05, 1, 300} {
@@ -305,6 +357,8 @@ func c08Gen(tier string, rng *rand.Rand, emit func(interface{})) {
 		sw := a + 1
 		xs = append(xs, sw, math.Nextafter(sw, 0), math.Nextafter(sw, math.Inf(1)), math.Floor(sw), math.Ceil(sw)+1)
 		xs = append(xs, a+10, a+50, 3*a+100, 1000)
+		// far tail ("x >= 0"): the prefactor x^a e^-x / Gamma(a) must underflow to 0, not overflow on the way
+		xs = append(xs, 1e4, 1e6, 1e10, 1e25, 1e100, 1e300, math.MaxFloat64)
 		for i := 0; i < 3; i++ {
 			xs = append(xs, math.Round(rng.Float64()*2*(a+1)*1024)/1024)
 		}
